@@ -753,7 +753,10 @@ class Interp:
         if isinstance(v, Delayed):
             if name == "persist":
                 return lambda: v
-            raise Unsupported("Delayed attribute %s" % name)
+            if name in ("compute", "visualize", "dask", "key") or name.startswith("__"):
+                raise Unsupported("Delayed attribute %s" % name)
+            # attribute access on a Delayed is lazy: a new Delayed whose value is the attribute of the computed object
+            return Delayed(lambda o, name=name: self.getattr(o, name), (v,), {})
         if isinstance(v, dict) and name in ("update", "items", "keys", "values", "get", "pop"):
             return getattr(v, name)
         try:
@@ -979,7 +982,13 @@ class Interp:
         out = []
         for e in elts:
             if isinstance(e, ast.Starred):
-                out.extend(self.ev(e.value, env))
+                sv = self.ev(e.value, env)
+                if isinstance(sv, SList):
+                    if len(elts) != 1:
+                        raise Unsupported("starred symbolic list among other arguments")
+                    out.append(StarSList(sv))
+                    continue
+                out.extend(sv)
             else:
                 out.append(self.ev(e, env))
         return out
@@ -1514,6 +1523,8 @@ def constant_element(xs):
         return e
     if isinstance(e, Poly) and e.is_const() and e.as_int() is not None:
         return e.as_int()
+    if isinstance(e, Poly) and T.symname(i) not in e.syms and not e.hasbv:
+        return e                  # the same symbolic value at every position (all labels equal to one class id)
     return None
 
 
@@ -1705,6 +1716,13 @@ class LinalgModel:
         return Arr(m.shape, lambda i, j: T.app(tag, n, lam, i, j), "real", m.kind)
 
 
+class StarSList:
+    """f(*lst) with a symbolic list: understood by the callees that model it (dask.compute)"""
+
+    def __init__(self, lst):
+        self.lst = lst
+
+
 class DaskModel:
     """dask.delayed / dask.compute per the trusted contract (DESIGN §3): a task
     receives value-equal arguments that are either the caller's objects
@@ -1726,6 +1744,11 @@ class DaskModel:
 
     def compute(self, *vals, **kw):
         N.used("dask.compute")
+        if len(vals) == 1 and isinstance(vals[0], StarSList):
+            # dask.compute(*tasks) with a symbolic number of tasks: the tuple of their values, in order
+            sl = vals[0].lst
+            I_ = self.I
+            return SList(sl.slen(), lambda k: I_.dask_compute(sl.elem(k)))
         return tuple(self.I.dask_compute(v) for v in vals)
 
     def optimize(self, *vals):
